@@ -43,7 +43,17 @@ RULE = ("one case = one value x one route (pickle protocol 0..5, copy.copy, copy
         "years months weeks remaining_days hours minutes remaining_seconds microseconds days seconds in_years in_months in_weeks in_days in_hours in_minutes in_seconds "
         "total_seconds total_days in_words(en) repr as_timedelta, endpoints (fields fold offset instant zone), absolute, invert, native timedelta value, ==. The original of a "
         "native-input case must show the stdlib's instant / offset of each operand in the pendulum zone of its tzinfo (UTC when naive) unless the wall time is skipped there "
-        "(which existing time replaces it is C02 / C11). non-trivial = distinct (value, route, history).")
+        "(which existing time replaces it is C02 / C11). EQUAL-YET-DISTINGUISHABLE ENDPOINTS (iv-equal-instant, ivn-equal-instant; inside the protocol model): Intervals whose "
+        "endpoints are == (one instant) in two zones / two tzinfo classes of one zone (Timezone, FixedTimezone with and without a name, datetime.timezone, ZoneInfo) / the two "
+        "folds of one wall time, incl. the second occurrence of a repeated wall time seen from another zone; zero-length and 1 us long; forward and absolute; routes 0..7 plus "
+        "two CONTAINER routes (8: copy.deepcopy([start, v, end])[1], 9: pickle protocol 5 of the same list - the memo is shared by the value and its own parts; the model sees "
+        "them as deepcopy / protocol 5).  TWINS (hist-memo-twins, oracle-only: what a helper remembers of its last call is process state outside the protocol model): one case = "
+        "build twin 1 (or build and copy it), build twin 2 = the value, an unrelated Interval or nothing, the copy (10 routes), everything observed again, an unrelated Interval, "
+        "the value built ONCE MORE; twins have the same wall-clock fields and zone NAME at both ends and differ in one hidden attribute: fold of an end / of the start "
+        "(Paris 2013, New York 2021, Lord Howe 2021 + random overlaps; start on the same day, 3 days earlier, in UTC), one microsecond, tzinfo class (Timezone vs ZoneInfo of one key), "
+        "the offset behind one zone name (FixedTimezone(o1, 'X') vs (o2, 'X'), a default name / a tz-database name on another offset), Date vs naive midnight, naive vs UTC; both orders. "
+        "Oracle for every history case in addition: the value built again after an unrelated Interval computation must observe exactly what the original observed when it was built "
+        "after the history (all core and extra accessors). Every plain case is preceded by the same unrelated computation. non-trivial = distinct (value, route, history).")
 EXHAUSTIVE = {"quick": False, "thorough": False}
 TRUSTED = ["the pickle / copy / copyreg protocol of CPython and the native reducers of datetime.date / timedelta / tzinfo / zoneinfo.ZoneInfo as stated at the top of "
            "coq/Model/Pickle.v (the model interprets what __reduce_ex__ / __deepcopy__ hand to the protocol; the protocol itself is not modelled further)",
@@ -61,6 +71,15 @@ ASSUMPTIONS = ["CPython with the C datetime module (timedelta.__reduce__ uses th
 VM_SUBSET = 120
 
 ROUTES = list(range(8))           # 0..5 pickle protocols, 6 copy.copy, 7 copy.deepcopy
+# container routes (streams iv-equal-instant / ivn-equal-instant / hist-memo-twins only): the value travels INSIDE a list next to its own parts, so the memo of
+# deepcopy / pickle is shared between the value and its parts: 8 = copy.deepcopy([start, v, end])[1] ([v, v][1] for a value without endpoints),
+# 9 = pickle.loads(pickle.dumps(<the same list>, 5))[1].  For the protocol model they are deepcopy / pickle protocol 5 of the value.
+ROUTE_DEEP_IN_LIST, ROUTE_PICKLE_IN_LIST = 8, 9
+ROUTES_X = ROUTES + [ROUTE_DEEP_IN_LIST, ROUTE_PICKLE_IN_LIST]
+
+
+def _eff_route(r):
+    return 7 if r == ROUTE_DEEP_IN_LIST else 5 if r == ROUTE_PICKLE_IN_LIST else r
 CLASSES = ["Date", "DateTime", "Time", "Duration", "AbsoluteDuration", "Interval", "Timezone", "FixedTimezone"]
 PROTO = ["__reduce_ex__", "__reduce__", "__copy__", "__deepcopy__", "__getstate__", "__setstate__", "__getnewargs__",
          "__getnewargs_ex__", "__getinitargs__", "__new__", "__init__"]
@@ -77,8 +96,8 @@ def key_index(name):
 
 
 # ----------------------------------------------------------------------------- cases
-def _routes(out, stream, fn, value):
-    for r in ROUTES:
+def _routes(out, stream, fn, value, routes=ROUTES):
+    for r in routes:
         out.append({"stream": stream, "fn": fn, "args": [r] + value})
 
 
@@ -276,6 +295,10 @@ def cases(tier, seed):
     # --- values BUILT FROM STANDARD-LIBRARY (native) inputs: Interval(<datetime.datetime / date>), pendulum.interval(...), mixed Intervals
     #     (a.diff(<native>), Interval(<native>, <pendulum>)), `b - a` with a native operand, pendulum.instance(<datetime.datetime>).  Own generator.
     out += _native_cases(random.Random(seed * 15485863 + 1408), thorough, zs, lo, hi)
+    # --- endpoints that are == yet distinguishable (one instant in two zones / tzinfo classes / folds), zero-length and 1 us long; own generator
+    out += _equal_instant_cases(random.Random(seed * 32452843 + 1411), thorough, zs, lo, hi)
+    # --- twins: two Intervals that differ in ONE hidden attribute (fold, microsecond, tzinfo class, offset behind one zone name, Date vs midnight), built back to back
+    out += _twin_cases(random.Random(seed * 49979687 + 1410), thorough, zs, lo, hi)
     # --- generated tables vs the live classes
     for i in range(len(CLASSES)):
         out.append({"stream": "tables", "fn": "tables", "args": [i]})
@@ -381,6 +404,130 @@ def _native_cases(rn, thorough, zs, lo, hi):
         for f in (0, 1):
             _routes(out, "dti-other", "dti", [W, f, tzs])
     return out
+
+
+def _render(U, spec):
+    """(wall microseconds, fold) of the UTC instant U in the zone of a tz spec, by the standard library."""
+    n = T.native(U, 0, _dt.timezone.utc).astimezone(_ref_tz(spec))
+    return T.wall_of(n), n.fold
+
+
+def _w(y, mo, d, h=0, mi=0, s=0, us=0):
+    return T.wall_of(_dt.datetime(y, mo, d, h, mi, s, us))
+
+
+def _amb_list(rq, zs, lo, hi, n):
+    amb = []
+    for name in rq.sample(list(zs), min(len(zs), 3 * n)):
+        for (tt, o_pre, o_post) in T.transition_probes(name, rq, per_zone=1):
+            if o_post < o_pre:
+                a = (tt + T.EPOCH_S + o_post) * T.MEG
+                b = (tt + T.EPOCH_S + o_pre) * T.MEG
+                if lo + 800 * T.US_DAY < a < hi - 800 * T.US_DAY:
+                    amb.append((name, (a + b) // 2))
+                    break
+        if len(amb) >= n:
+            break
+    return amb
+
+
+def _equal_instant_cases(rq, thorough, zs, lo, hi):
+    """Intervals whose two endpoints are == (the same instant) but distinguishable: two zones, two tzinfo classes of one zone, two folds of an
+    unambiguous wall time - zero-length, and 1 us long as the neighbour that must not be treated alike.  All 8 routes + the two container routes."""
+    out = []
+    lo2, hi2 = lo + 800 * T.US_DAY, hi - 800 * T.US_DAY
+    fixed = [["F", 19800, None], ["F", 19800, "IST"], ["F", -12600, "x"], ["F", 0, None], ["F", 0, "UTC"], ["F", 3600, "Europe/Paris"]]
+    foreign = [["S", 0], ["S", 19800], ["S", -3661]]
+    pairs = []
+
+    def pick():
+        k = rq.randrange(6)
+        if k <= 2:
+            return zs[rq.randrange(len(zs))]
+        if k == 3:
+            return rq.choice(fixed)
+        if k == 4:
+            return rq.choice(foreign + [["Z", zs[rq.randrange(len(zs))]]])
+        return "UTC"
+    pinU = _w(2024, 3, 10, 11, 30, 15, 250)
+    pinned = [(pinU, "Europe/Paris", "Asia/Tokyo"), (pinU, "Asia/Tokyo", "Europe/Paris"), (pinU, "Europe/Paris", ["F", 19800, None]), (pinU, "UTC", "America/New_York"),
+              (pinU, "UTC", ["F", 0, "UTC"]), (pinU, "UTC", ["S", 0]), (pinU, ["Z", "UTC"], "UTC"), (pinU, "Europe/Paris", ["Z", "Europe/Paris"]),
+              (pinU, ["F", 3600, None], ["F", 3600, "CET"]), (pinU, ["S", 3600], ["F", 3600, None]), (pinU, ["Z", "Europe/Paris"], ["Z", "Asia/Tokyo"])]
+    for _ in range(60 if thorough else 10):
+        pinned.append((rq.randrange(lo2, hi2), pick(), pick()))
+    # an instant inside a repeated wall interval of the first zone (second occurrence: fold 1), seen from another zone as well
+    for name, Wm in _amb_list(rq, zs, lo, hi, 12 if thorough else 3) + [("Europe/Paris", W_HIST)]:
+        o1 = T.off_s(T.native(Wm, 1, zoneinfo.ZoneInfo(name)))
+        pinned.append((Wm - o1 * T.MEG, name, pick()))
+        pinned.append((Wm - o1 * T.MEG, "UTC", name))
+    for U, z1, z2 in pinned:
+        (W1, f1), (W2, f2) = _render(U, z1), _render(U, z2)
+        pairs.append(([1, W1, f1, z1], [1, W2, f2, z2]))
+        W3, f3 = _render(U + 1, z2)
+        pairs.append(([1, W1, f1, z1], [1, W3, f3, z2]))            # 1 us apart: not equal
+    # one wall time, one zone, the two folds (== when the wall time is unique there); naive likewise
+    for _ in range(12 if thorough else 3):
+        W = rq.randrange(lo2, hi2)
+        z = rq.choice([zs[rq.randrange(len(zs))], "UTC", None, ["F", 3600, None]])
+        pairs.append(([1, W, 0, z], [1, W, 1, z]))
+        pairs.append(([1, W, 1, z], [1, W, 0, z]))
+    for e1, e2 in pairs:
+        for ab in (0, 1):
+            _routes(out, "iv-equal-instant", "iv", [ab, e1, e2], ROUTES_X)
+    # the same from standard-library operands (the endpoints are then pendulum.instance() of them)
+    for U, z1, z2 in pinned[:11:2] + pinned[11:14]:
+        if any(isinstance(z, list) and z[0] == "F" and z[2] for z in (z1, z2)):
+            continue
+        (W1, f1), (W2, f2) = _render(U, z1), _render(U, z2)
+        _routes(out, "ivn-equal-instant", "ivn", [HOW_CTOR, 0, [2, W1, f1, z1], [2, W2, f2, z2]], ROUTES_X)
+        _routes(out, "ivn-equal-instant", "ivn", [HOW_DIFF, 1, [1, W1, f1, z1], [2, W2, f2, z2]], [3, 6, 7, 8])
+    return out
+
+
+UNRELATED_IV = [0, [1, _w(2019, 3, 5, 7), 0, "UTC"], [1, _w(2020, 1, 1), 0, "UTC"]]
+
+
+def _twin_cases(rq, thorough, zs, lo, hi):
+    """hist-memo-twins.  One case = [build twin 1] [build twin 2 = the value] [build an unrelated Interval | nothing] [copy the value along the route]
+    [observe original and copy again] [unrelated Interval, then build the value once more].  The twins have the same wall-clock fields and zone NAME at
+    both ends and differ in exactly one hidden attribute; both orders."""
+    out = []
+    H = 3600 * T.MEG
+    tw = []                     # (a, b, b') : Interval(a, b) and Interval(a, b') are twins; a may be None for whole-interval twins given as (None, iv, iv')
+    ambs = [("Europe/Paris", W_HIST), ("America/New_York", _w(2021, 11, 7, 1, 30)), ("Australia/Lord_Howe", _w(2021, 4, 4, 1, 45))]
+    ambs += _amb_list(rq, zs, lo, hi, 20 if thorough else 4)
+    for i, (z, W) in enumerate(ambs):
+        for a in ([1, W - H, 0, z], [1, W - 3 * T.US_DAY - 5025 * T.MEG, 0, z], [1, W + 5 * H, 0, "UTC"])[: (3 if (thorough or i < 3) else 1)]:
+            tw.append(("fold", [a, [1, W, 0, z]], [a, [1, W, 1, z]]))
+        tw.append(("fold-start", [[1, W, 0, z], [1, W + 7 * H + 1, 0, z]], [[1, W, 1, z], [1, W + 7 * H + 1, 0, z]]))
+        tw.append(("microsecond", [[1, W - H, 0, z], [1, W + 3 * H, 0, z]], [[1, W - H, 0, z], [1, W + 3 * H + 1, 0, z]]))
+        tw.append(("tzinfo-class", [[1, W - H, 0, z], [1, W, 1, z]], [[1, W - H, 0, ["Z", z]], [1, W, 1, ["Z", z]]]))
+        tw.append(("tzinfo-class", [[1, W - H, 0, z], [1, W, 1, z]], [[1, W - H, 0, z], [1, W, 1, ["Z", z]]]))
+    for _ in range(6 if thorough else 2):
+        W = rq.randrange(lo + 800 * T.US_DAY, hi - 800 * T.US_DAY)
+        L = rq.randrange(1, 40 * T.US_DAY)
+        o1, o2 = rq.sample([3600, 7200, -18000, 19800, 0, 45 * 60], 2)
+        # one zone NAME on two offsets (FixedTimezone(o1, "X") / FixedTimezone(o2, "X")), at one end
+        tw.append(("offset-one-name", [[1, W, 0, ["F", o1, "X"]], [1, W + L, 0, ["F", o1, "X"]]], [[1, W, 0, ["F", o1, "X"]], [1, W + L, 0, ["F", o2, "X"]]]))
+        tw.append(("offset-one-name", [[1, W, 0, ["F", o1, "X"]], [1, W + H, 0, ["F", o1, "X"]]], [[1, W, 0, ["F", o2, "X"]], [1, W + H, 0, ["F", o1, "X"]]]))
+        # the default name of one offset carried by another offset
+        tw.append(("offset-one-name", [[1, W, 0, ["F", o1, None]], [1, W + L, 0, ["F", o1, None]]], [[1, W, 0, ["F", o1, None]], [1, W + L, 0, ["F", o2, _default_name(o1)]]]))
+        # a tz-database name carried by a fixed zone
+        tw.append(("offset-one-name", [[1, W, 0, "Europe/Paris"], [1, W + L, 0, "Europe/Paris"]], [[1, W, 0, "Europe/Paris"], [1, W + L, 0, ["F", -7200, "Europe/Paris"]]]))
+        # Dates against the naive DateTimes at their midnights; naive against UTC
+        d0, n = W // T.US_DAY + 1, L // T.US_DAY + 1
+        tw.append(("date-midnight", [[0, d0], [0, d0 + n]], [[1, (d0 - 1) * T.US_DAY, 0, None], [1, (d0 + n - 1) * T.US_DAY, 0, None]]))
+        tw.append(("naive-utc", [[1, W, 0, None], [1, W + L, 0, None]], [[1, W, 0, "UTC"], [1, W + L, 0, "UTC"]]))
+    for i, (what, t1, t2) in enumerate(tw):
+        for k, (x, y) in enumerate(((t1, t2), (t2, t1))):
+            ab = (i + k) % 2 if what != "fold" else 0
+            evict = [["mk", "iv", UNRELATED_IV]]
+            # twin 1 built (or built and copied), the value built right after it; an unrelated computation before the copy / none
+            _hist(out, "hist-memo-twins", [["mk", "iv", [ab] + x]], evict, [], "iv", [ab] + y, routes=ROUTES_X)
+            if what == "fold" or i % 3 == 0:
+                _hist(out, "hist-memo-twins", [["mk", "iv", UNRELATED_IV], ["copy", SAME, "iv", [ab] + x]], [], [["mk", "iv", [ab] + x]], "iv", [1 - ab] + y, routes=[0, 5, 6, 7, 8])
+    return out
+
 
 
 HIST_OFFS = [19800, -10800, 3600, 0, -3661, 86399, -86340, 2700, 1, -59, 20700, 43200]
@@ -715,7 +862,18 @@ def _copy_by(route, v):
     import pickle
     if route < 6:
         return pickle.loads(pickle.dumps(v, route))
+    if route in (ROUTE_DEEP_IN_LIST, ROUTE_PICKLE_IN_LIST):
+        box = [v.start, v, v.end] if hasattr(v, "start") and hasattr(v, "end") else [v, v]
+        box2 = copy.deepcopy(box) if route == ROUTE_DEEP_IN_LIST else pickle.loads(pickle.dumps(box, 5))
+        return box2[1]
     return copy.copy(v) if route == 6 else copy.deepcopy(v)
+
+
+def _evict():
+    """An unrelated Interval computation (2019-03-05T07:00 -> 2020-01-01 UTC): whatever a helper remembers of its LAST call no longer belongs to a value of the case."""
+    import pendulum
+    i = pendulum.Interval(pendulum.DateTime(2019, 3, 5, 7, tzinfo=pendulum.UTC), pendulum.DateTime(2020, 1, 1, tzinfo=pendulum.UTC))
+    return i.months
 
 
 def _state_snapshot():
@@ -829,7 +987,14 @@ def _hist_run(a, snap):
             cagain = [core(w), extra(w)] if w is not None else []
         except Exception as ex:  # noqa
             return [3, type(ex).__name__, str(ex)[:200]]
-        return res + [outs, [] if again == [co, eo] else again, [] if (w is None or cagain == [res[4], res[6]]) else cagain]
+        # ... and the same construction once more, after an unrelated Interval computation: the value must not depend on what was computed before it
+        try:
+            _evict()
+            v2, core2, extra2, _eq2 = _build(kind, value)
+            rebuilt = [core2(v2), extra2(v2)]
+        except Exception as ex:  # noqa
+            rebuilt = ["raised", type(ex).__name__, str(ex)[:160]]
+        return res + [outs, [] if again == [co, eo] else again, [] if (w is None or cagain == [res[4], res[6]]) else cagain, [] if rebuilt == [co, eo] else rebuilt]
     finally:
         _state_restore(snap)
 
@@ -867,6 +1032,7 @@ def impl_run(cases):
                 out.append([0, _tables(a[0])])
                 continue
             _state_restore(snap)          # a plain case = the value copied in fresh-process state; histories are the hist-* streams
+            _evict()
             r = a[0]
             v, core, extra, want_eq = _build(fn, a[1:])
             co, eo = core(v), extra(v)
@@ -874,12 +1040,7 @@ def impl_run(cases):
             out.append([2, type(ex).__name__, str(ex)[:200]])
             continue
         try:
-            if r < 6:
-                w = pickle.loads(pickle.dumps(v, r))
-            elif r == 6:
-                w = copy.copy(v)
-            else:
-                w = copy.deepcopy(v)
+            w = _copy_by(r, v)
         except Exception as ex:  # noqa
             out.append([1, 0, 0, co, [T.EXN.get(type(ex).__name__, 14)], eo, [type(ex).__name__ + ": " + str(ex)[:160]]])
             continue
@@ -943,7 +1104,7 @@ def _op_enc(op):
     if k == "mk" and op[1] == "tz":
         return [3] + _tz_enc(op[2][0], W_TZ, W_TZ)
     if k == "copy" and op[2] == "tz":
-        return [4, op[1]] + _tz_enc(op[3][0], W_TZ, W_TZ)
+        return [4, _eff_route(op[1])] + _tz_enc(op[3][0], W_TZ, W_TZ)
     if k in ("copy", "mk", "mkbad", "tznamebad"):
         return [5]                   # leaves the cache alone; its own output is judged by the oracle only
     return None                      # process-wide configuration (local timezone, locale): outside the model
@@ -965,7 +1126,7 @@ def _hist_model_call(a):
         body = [t, f] + _tz_enc(tzs, W_TZ, W_TZ)
     else:
         body = _tz_enc(value[0], W_TZ, W_TZ)
-    return [("hist", [route, HIST_KIND[kind], len(before)] + [x for o in before for x in o] + body + [len(after)] + [x for o in after for x in o])]
+    return [("hist", [_eff_route(route), HIST_KIND[kind], len(before)] + [x for o in before for x in o] + body + [len(after)] + [x for o in after for x in o])]
 
 
 def model_calls(c, backend):
@@ -1010,7 +1171,7 @@ def model_calls(c, backend):
         body = [key_index("UTC"), W, f] + _tz_enc(tzs, W, W)
     else:
         return None
-    return [(fn, [8] + body), (fn, [r] + body)]
+    return [(fn, [8] + body), (fn, [_eff_route(r)] + body)]
 
 
 def model_result(c, backend, outs):
@@ -1283,7 +1444,17 @@ def _hist_extra_diffs(c, r, backend="py"):
         why.append(f"the ORIGINAL changed after it was copied: first {[r[3], r[5]]} then {r[8]}")
     if r[9]:
         why.append(f"the COPY changed after it was made: first {[r[4], r[6]]} then {r[9]}")
+    if len(r) > 10 and r[10]:
+        why.append("the value depends on what was computed BEFORE it: built after this history it observes "
+                   f"{_first_diff([r[3], r[5]], r[10])}, the same construction repeated after an unrelated Interval computation (original / repeated)")
     return why
+
+
+def _first_diff(x, y):
+    """The differing entries of two observation lists [core, extra] as (position, original, other) triples."""
+    if not (isinstance(y, list) and len(y) == 2 and all(isinstance(t, list) for t in y)) or [len(t) for t in x] != [len(t) for t in y]:
+        return (x, y)
+    return [(("core", "extra")[k], i, p, q) for k in (0, 1) for i, (p, q) in enumerate(zip(x[k], y[k])) if p != q][:8]
 
 
 def _diffs(c, r, backend="py"):
@@ -1299,7 +1470,8 @@ def _diffs(c, r, backend="py"):
         return [f"harness could not build/observe the value: {r[1:]}"]
     why = []
     route = a[0]
-    rn = f"pickle protocol {route}" if route < 6 else ("copy.copy" if route == 6 else "copy.deepcopy")
+    rn = f"pickle protocol {route}" if route < 6 else ("copy.copy" if route == 6 else "copy.deepcopy" if route == 7 else
+                                                       "copy.deepcopy([start, v, end])[1]" if route == ROUTE_DEEP_IN_LIST else "pickle.loads(pickle.dumps([start, v, end], 5))[1]")
     st, ty, eq, co, cc, eo, ec = r
     # the original must itself be what the stdlib says these fields denote (independent reading of the case)
     if fn == "dt":
@@ -1382,7 +1554,7 @@ def known(c, backend, r):
         if _hist_extra_diffs(c, r, backend):
             return None
         return known(_hist_inner(c), backend, r[:7])
-    route = a[0]
+    route = _eff_route(a[0])
     st, ty, eq, co, cc, eo, ec = r
     if fn == "dti":
         # pendulum.instance(<native>) IS a DateTime in the zone _conv_spec(tzinfo): judged as that DateTime (fields and fold as the original shows them)
@@ -1587,5 +1759,8 @@ LEVEL_TEXT = LEVEL_TEXT + (" Intervals built from STANDARD-LIBRARY operands (Mod
 LEVEL_NOTE = LEVEL_NOTE + (" Native inputs: the ivn (Interval of native / mixed operands) and dti (pendulum.instance) entries of DispatchC14 are INSIDE the model and compared with the "
                            "implementation over all 8 routes on both backends (Model/PickleNative.v is hand-written over Model/TzConvert.create, no source pin of its own: tied by the "
                            "ivn-* / dti-* correspondence); Interval components from precise_diff are oracle-only.")
+LEVEL_NOTE = LEVEL_NOTE + (" Equal-yet-distinguishable endpoints (iv-equal-instant / ivn-equal-instant) are ordinary iv / ivn entries of DispatchC14, INSIDE the model (the container routes 8 / 9 "
+                           "are compared with the model's deepcopy / protocol-5 result); hist-memo-twins (values built back to back that differ in one hidden attribute; the value rebuilt after "
+                           "an unrelated computation) is an oracle-only stream: a helper's memory of its last call is process state outside the protocol model.")
 LEVEL_NOTE = LEVEL_NOTE + (" Method bodies: the argument lists are generated data; the default name of FixedTimezone.__init__ is translated on every run and proved equal to the model for |offset| < 24 h "
                            "(model_is_code_fixed_timezone_default_name; self-tested by mutation); Interval.__new__ / __init__, DateTime.timezone / tz and Timezone.__new__ stay hand-transcribed and pinned by text.")
